@@ -614,14 +614,15 @@ int SQLITE3::Handle::bind(bloc::Tuple& args)
         sqlite3_bind_double(_stmt, i, *v.numeric());
         break;
       case Type::LITERAL:
-        sqlite3_bind_text(_stmt, i, v.literal()->c_str(), v.literal()->size(), SQLITE_STATIC);
+        /* the statement outlives the bound tuple: sqlite must keep its own copy */
+        sqlite3_bind_text(_stmt, i, v.literal()->c_str(), v.literal()->size(), SQLITE_TRANSIENT);
         break;
       case Type::TABCHAR:
         /* an empty bytes is an empty blob, not NULL (a null data pointer binds NULL) */
         if (v.tabchar()->empty())
           sqlite3_bind_zeroblob(_stmt, i, 0);
         else
-          sqlite3_bind_blob(_stmt, i, v.tabchar()->data(), v.tabchar()->size(), SQLITE_STATIC);
+          sqlite3_bind_blob(_stmt, i, v.tabchar()->data(), v.tabchar()->size(), SQLITE_TRANSIENT);
         break;
       default:
         break;
